@@ -10,10 +10,11 @@ from sim.core import nint, open_reader, SimLivelock, Violation
 from sim.disk import SimDisk
 
 ID = "C02"
+VARY_KNOBS = True  # module-level tuning constants of the library are lowered in some runs (sim.core.lower_tuning_constants)
 VARY_ARGFORM = True  # integer call arguments also arrive as numpy integer scalars
 SHRINK_LISTS = ("ops", "faults", ("files", "nsamps"))
 SHRINK_MIN = {"nchans": 1, "nbits": 1}
-SHRINK_SIMPLE = {"argform": "int"}
+SHRINK_SIMPLE = {"knobs": None, "argform": "int"}
 POISON = 0xA5
 
 
